@@ -164,6 +164,7 @@ func (t *fnTrans) builtin(b *ssa.Builtin, c *ssa.CallCommon, res ssa.Value, pos 
 	case "copy":
 		return t.copyCall(c, pos)
 	case "delete":
+		t.lockDiscipline(t.guardedFieldOf(c.Args[0]), true, pos)
 		mt := c.Args[0].Type().Underlying().(*types.Map)
 		t.mapDelete(arg(0), arg(1), mt)
 		return Val{}
